@@ -48,6 +48,8 @@ class Collector:
     def bad(self, rule, construct, detail, file=None, node=None, line=None):
         if node is not None and line is None:
             line = getattr(node, "lineno", None)
+            if line is None and getattr(node, "body", None):
+                line = getattr(node.body[0], "lineno", None)  # match_case has no position
         self.obligations.append(Obligation(rule, construct, False, detail, file, line))
 
     def check(self, cond, rule, construct, ok_detail, bad_detail=None, file=None, node=None):
